@@ -181,6 +181,10 @@ class Marker(LaserPath):
                 f'Orientation must be either "x" (parallel to x axis) or "y" (parallel to y axis). Given {orientation}.'
             )
 
+        # a 2D initial position lies at the marker depth
+        if len(init_pos) == 2:
+            init_pos = [*init_pos, self.depth]
+
         s = sign()
         self.start(init_pos)
         if orientation.lower() == 'x':
